@@ -71,7 +71,7 @@ def chains(tier):
         for ig in IGN2:
             for style in (('named', 'anon') if any(ig) else ('named',)):
                 for dotted in (False, True, 'deep', 'ovign'):
-                    if dotted and style == 'anon':
+                    if dotted in ('deep', 'ovign') and style == 'anon':
                         continue
                     if dotted == 'ovign' and not ig[0]:
                         continue        # (needs a named ignore rule in the base to override)
@@ -153,7 +153,8 @@ def run_chain(job, reverse):
     uid = e1.unique_name('c13')
     names = []
     for i, sp in enumerate(specs):
-        nm = ('%s_pkg.sub.m%d' % (uid, i)) if dotted else '%s_m%d' % (uid, i)
+        # dotted names: the modules of a chain share their LAST component (pkg.v0.core <- pkg.v1.core ...)
+        nm = ('%s_pkg.v%d.core' % (uid, i)) if dotted else '%s_m%d' % (uid, i)
         sp.name = nm
         sp.parent_name = names[-1] if names else None
         names.append(nm)
